@@ -45,9 +45,19 @@ theorem source_shape_pinned :
 /-- Tie to the source (re-probed on every run): the real `_set_display`, run on an entity and on a source file of
     the probe project for every metadata list of up to two words (three for `protected` / `none` / unknown) in
     either letter case and three inherited lists, leaves exactly the list `setDisplay` computes - and it is the
-    inherited list *object* exactly when the model says the entity inherits (`setDisplayInherits`). -/
+    inherited list *object* exactly when the model says the entity inherits (`setDisplayInherits`).
+    Round 6: the table is the *set* of outcomes over one real object of every class of the probe project
+    (`setDisplaySubjects`: procedures, types, bindings, units, the file, ...) with `meta.proc_internals` off and on; that
+    it still has the 348 rows of one class says that `display` depends on neither - `display` and `proc_internals` are
+    independent options of the property statement (a procedure whose `proc_internals` is off does *not* get an empty
+    display list that its own `display:` metadata could then replace). -/
 theorem set_display_probe_matches_model :
-    C05.setDisplayProbe.all setDisplayRowOk = true ∧ C05.setDisplayProbe.length = 348 := by decide +kernel
+    C05.setDisplayProbe.all setDisplayRowOk = true ∧ C05.setDisplayProbe.length = 348
+    ∧ (["FortranSubroutine", "FortranFunction", "FortranModuleProcedureImplementation", "FortranVariable",
+        "FortranType", "FortranBoundProcedure", "FortranInterface", "FortranModule", "FortranSubmodule",
+        "FortranProgram", "FortranBlockData", "FortranSourceFile"].all fun c =>
+          C05.setDisplaySubjects.contains (c, false) && C05.setDisplaySubjects.contains (c, true)) = true := by
+  decide +kernel
 
 /-- Tie to the source (re-probed on every run): all classes share one `_should_display` / `filter_display`, and its
     truth table over `hide_undoc` x documented x permission x every subset of {public, protected, private} is
@@ -218,6 +228,109 @@ theorem inherited_member_shown_iff (cfg : Cfg) (d : List Word) (c : Ent) (rest :
 theorem binding_name_links_partial (p : List Ent) (fuel : Nat) (hn : noExtension p = true) :
     inheritProject p fuel = p :=
   inheritList_noExtension p fuel p hn
+
+/-- **`proc_internals` and `display` are independent options** (clause "given `display` (... overridden in an
+    entity's metadata ...), `proc_internals` and `hide_undoc`"): what `prune()` leaves of a procedure whose internals
+    are switched off does not depend on the display list in force in it - so not on the project's `display`, not on
+    what it inherits, and not on the `display:` metadata of the procedure itself (any two lists `d`, `d'`).  A
+    `display:` override can never switch unselected internals back on.  Tied to the code by
+    `prune_probe_matches_model` (the guard and the lists it empties), `set_display_probe_matches_model`
+    (`_set_display` does not look at `proc_internals`) and the prune stream. -/
+theorem internals_off_ignores_display (cfg : Cfg) (i : Info) (cs : Ents) (d d' : List Word)
+    (h : internalsOff cfg i = true) : prune cfg d (.mk i cs) = prune cfg d' (.mk i cs) := by
+  simp only [prune, h]
+  rw [pruneKids_off_display cfg (classOf i.kind) d d' cs]
+
+/-- non-vacuity: a procedure with internals (kind, `proc_internals: false`) for which the hypothesis holds
+    and the lists really are emptied -/
+example : internalsOff { display := [.pub, .priv], procInternals := true, hideUndoc := false, fileInherits := true }
+    { (default : Info) with kind := .subroutine, pint := some false, disp := [.pub, .priv] } = true := by decide
+
+/-- Tie to the source (re-probed on every run, round 6): the macros `type_summary` and `bound_info` of
+    `macros.html`, rendered by FORD's own Jinja2 environment on the real (correlated) types of the probe project -
+    a binding the type declares and one it inherits x `tb.visible` x `visible` of the declaring type x
+    `external_url` set / absent, 32 renderings - print the name of a binding exactly as `bindNameLink true` says:
+    in the summary card a link iff the binding is `visible` **and** (the type that declares it is `visible` or the
+    URL is external), and then to the page of the declaring type (never the carrier's, never anywhere else); on the
+    type's own page never a link.  Dropping the test of the declaring type from the macro changes two rows. -/
+theorem bound_declaration_probe_matches_model :
+    C05.boundDeclProbe.all (boundDeclRowOk true) = true ∧ C05.boundDeclProbe.length = 32
+    ∧ (C05.boundDeclProbe.filter fun r => r.2.2.2.2.2 != "name").length = 6 := by decide
+
+/-- **Binding names in type summaries never link to the page of an unselected type** (clause "links never
+    point at pages of unselected entities"; full strength: any project, type extension and block data included,
+    any tree `q` that is rendered): when the name of a binding - declared or inherited - is a link in the summary
+    of a type, the type that declares it (whose page the link points into) has a page among `pageIds q` and is
+    `visible`. -/
+theorem binding_name_links (orig q : List Ent) (t b d : Nat) (h : (t, b, d) ∈ bindLinksOf true orig q q) :
+    d ∈ pageIds q ∧ d ∈ visibleIdsOf q :=
+  mem_bindLinksOf orig q t b d q h
+
+/-- ... and after `correlate` + `prune`, for every configuration and every well-formed project (inherited
+    members included: `inheritProject`), that page is the page of a **selected** entity (`pages_exact_partial`). -/
+theorem binding_name_links_point_at_selected_pages (cfg : Cfg) (p : List Ent) (fuel : Nat)
+    (hc : cfgOk cfg = true) (hw : wfProject p = true)
+    (hf : cfg.fileInherits = true ∨ noFileDisplay (inheritProject p fuel) = true) (t b d : Nat)
+    (h : (t, b, d) ∈ bindLinksOf true p (pruneProject cfg (inheritProject p fuel))
+           (pruneProject cfg (inheritProject p fuel))) :
+    d ∈ selPages cfg (inheritProject p fuel) := by
+  rw [← pageIds_pruneProject cfg hc _ (wfProject_inheritProject p hw fuel) hf]
+  exact (mem_bindLinksOf p _ t b d _ h).1
+
+/-- Why the macro needs its test (the behaviour of fixed finding
+    `C05-inherited-binding-links-to-unselected-type`, and of any edit that removes the test): without it
+    (`guarded := false`) the inherited binding 4 in the summary of the public type 5 links into the page of the
+    private type 3, which is not written; with it there is no link - and with `display: public, private` the same
+    link is made and legitimate (non-vacuity of `binding_name_links`). -/
+theorem binding_name_link_unguarded_witness :
+    bindLinksOf false wInheritedBinding (pruneProject wCfgInt (inheritProject wInheritedBinding 8))
+      (pruneProject wCfgInt (inheritProject wInheritedBinding 8)) = [(5, 4, 3)]
+    ∧ bindLinksOf true wInheritedBinding (pruneProject wCfgInt (inheritProject wInheritedBinding 8))
+      (pruneProject wCfgInt (inheritProject wInheritedBinding 8)) = []
+    ∧ 3 ∉ pageIds (pruneProject wCfgInt (inheritProject wInheritedBinding 8))
+    ∧ bindLinksOf true wInheritedBinding
+        (pruneProject { wCfgInt with display := [.pub, .priv] } (inheritProject wInheritedBinding 8))
+        (pruneProject { wCfgInt with display := [.pub, .priv] } (inheritProject wInheritedBinding 8))
+      = [(3, 4, 3), (5, 4, 3)] := by decide
+
+/-- Tie to the source (re-probed on every run, round 6): `BaseNode.__init__` of `ford/graphs.py` - the constructor every
+    graph node class runs first - on copies of real objects of the probe project (one with a URL and one without
+    for every class that has them) x `visible` true / false / absent x the parent's `visible` true / false / absent:
+    the node carries a `URL` attribute exactly when `nodeLinked` says so - the entity has a URL, its `visible` is not
+    false and, for a type-bound procedure (whose URL is an anchor on the page of the declaring type), the parent's
+    `visible` is not false either - and the attribute is then `parent_dir` + the entity's own URL. -/
+theorem graph_node_probe_links_only_shown :
+    C05.graphNodeProbe.all graphNodeRowOk = true ∧ C05.graphNodeProbe.length = 174
+    ∧ (C05.graphNodeProbe.filter fun r => r.2.1).length = 9
+    ∧ (C05.graphNodeProbe.filter fun r => r.2.2.2.2.2.1).length = 96 := by decide +kernel
+
+/-- **Graph nodes never point at pages of unselected entities** (clause "links and graph nodes never point at
+    pages of unselected entities"; full strength, any project, any rendered tree `q`, nodes of removed entities
+    included): the page a node links to is among `pageIds q`. -/
+theorem graph_node_urls (orig q es : List Ent) (x pg : Nat) (h : (x, pg) ∈ nodeUrlsOf orig q es) :
+    pg ∈ pageIds q :=
+  mem_nodeUrlsOf orig q x pg es h
+
+/-- ... and after `correlate` + `prune`, for every configuration and every well-formed project (nodes are made of
+    every entity of the project as `correlate` left it, pruned or not): it is the page of a **selected** entity. -/
+theorem graph_node_urls_point_at_selected_pages (cfg : Cfg) (p : List Ent) (fuel : Nat)
+    (hc : cfgOk cfg = true) (hw : wfProject p = true)
+    (hf : cfg.fileInherits = true ∨ noFileDisplay (inheritProject p fuel) = true) (x pg : Nat)
+    (h : (x, pg) ∈ nodeUrlsOf p (pruneProject cfg (inheritProject p fuel)) (inheritProject p fuel)) :
+    pg ∈ selPages cfg (inheritProject p fuel) := by
+  rw [← pageIds_pruneProject cfg hc _ (wfProject_inheritProject p hw fuel) hf]
+  exact mem_nodeUrlsOf p _ x pg _ h
+
+/-- non-vacuity / what the gate does: module with the private type 3 (binding 4), the public type 5 extending it
+    and the private subroutine 7, `display: public`: the nodes of the file, the module and type 5 link to their
+    pages; the nodes of the removed type 3, of the removed subroutine 7 and of the binding 4 (kept by type 5, but
+    declared by the unshown type 3) carry no URL.  With `display: public, private` all of them do. -/
+theorem graph_node_gate_witness :
+    nodeUrlsOf wInheritedBinding (pruneProject wCfgInt (inheritProject wInheritedBinding 8))
+      (inheritProject wInheritedBinding 8) = [(1, 1), (2, 2), (5, 5)]
+    ∧ nodeUrlsOf wInheritedBinding
+        (pruneProject { wCfgInt with display := [.pub, .priv] } (inheritProject wInheritedBinding 8))
+        (inheritProject wInheritedBinding 8) = [(1, 1), (2, 2), (3, 3), (4, 3), (5, 5), (4, 3), (7, 7)] := by decide
 
 /-- **`extends(...)` links** (partial: projects without block data units): the type named in the
     `extends(...)` of a type is printed as a link only if it is `visible`, and outside block data `visible` is
